@@ -54,6 +54,9 @@ var soilCat = map[string][]proj.Horizon{
 	"peat9":    {hz("HN", 4, 1, 0, 25), hz("SS", 9, 3, 0, 0.3)},
 	"gravel12": {{Tex: "SL2", Lower: 4, BD: 3, Corg: 1, CN: 10, FC: 25, WP: 8, PS: 40}, {Tex: "SS", Lower: 12, BD: 3, Corg: 0.1, CN: 10, FC: 10, WP: 5, PS: 30}},
 	"siltcap12": {hz("UU", 3, 4, 0, 5.5), hz("ULS", 12, 3, 0, 0.5)}, // dense silt rich in carbon: the table's field capacity is capped at the pore volume
+	// horizons whose capacity values come from different sources: table above explicit values, and the other way round
+	"mixedte12": {hz("SL3", 4, 3, 0, 1.0), {Tex: "SL4", Lower: 12, BD: 3, Corg: 0.3, CN: 10, FC: 25, WP: 14, PS: 40}},
+	"mixedet12": {{Tex: "SL3", Lower: 4, BD: 3, Corg: 1, CN: 10, FC: 28, WP: 12, PS: 42}, hz("LT3", 12, 4, 0, 0.4)},
 	"sand8":    {hz("SL2", 3, 3, 0, 1.0), hz("SS", 8, 3, 10, 0.2)},
 	"loam7":    {hz("LS3", 3, 2, 0, 1.4), hz("LT3", 7, 4, 0, 0.4)},
 	"peat2":    {hz("HN", 2, 1, 0, 30)},
